@@ -68,6 +68,12 @@ func init() {
 						es = append(es, t)
 					}
 				}
+			} else if sl, ok := args[0].(Term); ok && sl.Sort == SSlice && staticVarargLen(c.Args[0]) >= 0 {
+				// materialised variadic literal: read its elements back from the element heap
+				h := fc.heapRaw(st, elemHeapName(SErr), arrSort(SInt, arrSort(SInt, SErr)))
+				for i := 0; i < staticVarargLen(c.Args[0]); i++ {
+					es = append(es, tSelect(tSelect(h, slArr(sl)), tIx(slOff(sl), intLit(int64(i)))))
+				}
 			} else {
 				return havocRes(fc, st, "join", rt)
 			}
@@ -170,7 +176,21 @@ func init() {
 		"context.Background":        modelHavoc,
 		"context.Cause": func(fc *FnCtx, fr *Frame, st *State, instr ssa.Instruction, c *ssa.CallCommon, args []Val, rt types.Type) Val {
 			fc.declareSentinels()
-			return havocRes(fc, st, "cause", rt)
+			res := havocRes(fc, st, "cause", rt)
+			// Cause(ctx) is non-nil once the context has been observed done (Err() != nil)
+			if ctx, ok := args[0].(Term); ok {
+				if known, has := st.cells[ctxDoneKey(ctx)].(Term); has {
+					if rt2, ok := res.(Term); ok && rt2.Sort == SErr {
+						fc.assume(st, tImp(known, tNot(tEq(rt2, T(SErr, "nilErr")))))
+					}
+				}
+				if rt2, ok := res.(Term); ok && rt2.Sort == SErr {
+					// causes are chosen by whoever cancels: callers of the package, or the store's own
+					// delete deadline (errDeleteTimeout)
+					fc.assumeForeignError(st, rt2, "errDeleteTimeout")
+				}
+			}
+			return res
 		},
 		// ---- sync
 		"(*sync.Mutex).Lock":      modelLock,
@@ -881,4 +901,25 @@ func modelAPCAS(fc *FnCtx, fr *Frame, st *State, instr ssa.Instruction, c *ssa.C
 	fc.setHeap(st, vn, tStore(val, recv, tIte(tAnd(succ, tNot(newNil)), nv, tSelect(val, recv))))
 	fc.checkStepInv(fr, st, instr)
 	return succ
+}
+
+// staticVarargLen: length of a variadic argument built by the compiler as new [N]T{...}[:] (-1 if unknown).
+func staticVarargLen(v ssa.Value) int {
+	sl, ok := v.(*ssa.Slice)
+	if !ok || sl.Low != nil || sl.High != nil {
+		return -1
+	}
+	al, ok := sl.X.(*ssa.Alloc)
+	if !ok {
+		return -1
+	}
+	pt, ok := al.Type().Underlying().(*types.Pointer)
+	if !ok {
+		return -1
+	}
+	at, ok := pt.Elem().Underlying().(*types.Array)
+	if !ok || at.Len() > 16 {
+		return -1
+	}
+	return int(at.Len())
 }
